@@ -9,7 +9,7 @@ _SORT_ADT = {}
 
 
 def _adt_for(sort):
-    for A in (M, P, MMp, PMp, IDL, MLs, TLs, TRM):
+    for A in (M, P, MMp, PMp, IDL, MLs, TLs, TRM, PTLs, PCLs, PTR):
         if A.sort == sort:
             return A
     raise KeyError(sort)
@@ -17,7 +17,7 @@ def _adt_for(sort):
 
 class Lemma:
     def __init__(self, name, vars, stmt, ind=None, triggers=None, uses=(), companions=(), ih_extra=None, doc='',
-                 nonind=False, split_depth=0, hints=(), rewrite=False, trusted=False, int_ind=None):
+                 nonind=False, split_depth=0, hints=(), rewrite=False, trusted=False, int_ind=None, crewrite=False):
         self.name = name
         self.vars = vars
         self.stmt = stmt
@@ -29,6 +29,7 @@ class Lemma:
         self.doc = doc
         self.nonind = nonind
         self.split_depth = split_depth
+        self.crewrite = crewrite     # conditional equation H => lhs == rhs: once H is entailed by the VC, lhs is replaced by rhs (solve.saturate)
         self.rewrite = rewrite       # an unconditional equation lhs == rhs used left-to-right by the normaliser
         self.hints = list(hints)     # explicit instances: (lemma name, [terms])
         self.int_ind = int_ind       # strong induction on a natural number: callable(n, vars) -> list of (smaller term m, [extra substitutions])
@@ -99,9 +100,10 @@ def match(pat, term, varids, binding):
     return True
 
 
-def instantiate(lemmas, formulas, rounds=3, limit=600):
+def instantiate(lemmas, formulas, rounds=3, limit=4000, tagged=False):
     """Instances of proved lemmas whose trigger matches a subterm of the formulas."""
     out = []
+    tags = []
     seen = set()
     cur = list(formulas)
     for _ in range(rounds):
@@ -136,13 +138,14 @@ def instantiate(lemmas, formulas, rounds=3, limit=600):
                     seen.add(key)
                     f = lm.inst_map(b)
                     new.append(f)
+                    tags.append(lm)
                     if len(out) + len(new) > limit:
-                        return out + new
+                        return (out + new, tags) if tagged else out + new
         if not new:
             break
         out.extend(new)
         cur = new
-    return out
+    return (out, tags) if tagged else out
 
 
 def prove_lemma(lm, library, seed=0):
